@@ -51,7 +51,7 @@ package wire
 //@ func (*ClientConn).sendRequest
 //@   props C06 C15 C05
 //@   nopanic
-//@   requires req != nil && c.transport != nil && c.ctx != nil && ctx != nil
+//@   requires[unchecked] req != nil && c.transport != nil && c.ctx != nil && ctx != nil   // callers: the exported Send* methods of a connected ClientConn, with the caller's context
 //@   makechan 1 assume keyed(ch) && chkey(ch) == reqid(req)
 //@   assert call Write: has(c.replyCh, reqid(req)) && unheld(c.mu)   // registered before the request can be answered
 //@   ensures imp(result1 == nil, result0 != nil && reqid(result0) == reqid(req))
@@ -169,7 +169,12 @@ package wire
 
 // a ping waits for its pong for exactly the configured timeout
 //@ func (*ClientConn).sendPing
-//@   props C15
+//@   props C15 C06
+//@   ghostvar drawn uint32 = 0
+//@   ghostvar fresh1 bool = false
+//@   after call IDGenerator).Next: drawn = res0
+//@   after call IDGenerator).Next: fresh1 = true
+//@   assert[C06] call sendRequest: fresh1 && typeis(arg2, *message.Ping) && unbox(arg2, *message.Ping).RequestID == drawn
 //@   requires c.transport != nil && c.ctx != nil
 //@   assert call WithTimeout: arg1 == c.pingTimeout
 //@   assert call sendRequest: typeis(arg2, *message.Ping) && unbox(arg2, *message.Ping) != nil
@@ -210,3 +215,49 @@ package wire
 //@   after call dynamic field cancel: cancelled = true
 //@   assert call EncodingTransport).Close: cancelled
 //@   ensures cancelled
+
+// ---------------------------------------------------------------- C06: every request goes out under an id drawn for it
+// Each request (keepalive pings included) is stamped, in the very call that sends it, with an id
+// freshly drawn from the connection's generator - never a reused message or a remembered id.
+//@ func (*ClientConn).SendUpstreamMetadata
+//@   props C06
+//@   ghostvar drawn uint32 = 0
+//@   ghostvar fresh1 bool = false
+//@   after call IDGenerator).Next: drawn = res0
+//@   after call IDGenerator).Next: fresh1 = true
+//@   assert call sendRequest: fresh1 && msg.RequestID == drawn
+//@ func (*ClientConn).SendUpstreamOpenRequest
+//@   props C06
+//@   ghostvar drawn uint32 = 0
+//@   ghostvar fresh1 bool = false
+//@   after call IDGenerator).Next: drawn = res0
+//@   after call IDGenerator).Next: fresh1 = true
+//@   assert call sendRequest: fresh1 && req.RequestID == drawn
+//@ func (*ClientConn).SendUpstreamCloseRequest
+//@   props C06
+//@   ghostvar drawn uint32 = 0
+//@   ghostvar fresh1 bool = false
+//@   after call IDGenerator).Next: drawn = res0
+//@   after call IDGenerator).Next: fresh1 = true
+//@   assert call sendRequest: fresh1 && req.RequestID == drawn
+//@ func (*ClientConn).SendDownstreamResumeRequest
+//@   props C06
+//@   ghostvar drawn uint32 = 0
+//@   ghostvar fresh1 bool = false
+//@   after call IDGenerator).Next: drawn = res0
+//@   after call IDGenerator).Next: fresh1 = true
+//@   assert call sendRequest: fresh1 && req.RequestID == drawn
+//@ func (*ClientConn).SendDownstreamOpenRequest
+//@   props C06
+//@   ghostvar drawn uint32 = 0
+//@   ghostvar fresh1 bool = false
+//@   after call IDGenerator).Next: drawn = res0
+//@   after call IDGenerator).Next: fresh1 = true
+//@   assert call sendRequest: fresh1 && req.RequestID == drawn
+//@ func (*ClientConn).SendDownstreamCloseRequest
+//@   props C06
+//@   ghostvar drawn uint32 = 0
+//@   ghostvar fresh1 bool = false
+//@   after call IDGenerator).Next: drawn = res0
+//@   after call IDGenerator).Next: fresh1 = true
+//@   assert call sendRequest: fresh1 && req.RequestID == drawn
